@@ -175,9 +175,17 @@ Qed.
 Lemma gp_untyped_atom g : gp_pos g = true -> gp_untyped g = atom_text (gp_atom g).
 Proof. unfold gp_untyped, atom_text, gp_atom. intros ->. reflexivity. Qed.
 
-Lemma pf_state_text_valued num_text f :
-  pf_state_text num_text f = valued_text (pf_atom f) (num_text (pf_val f)).
+Lemma pf_state_text_valued' num_text f :
+  pf_state_text num_text f = valued_text (pf_atom f) (pf_value_text num_text f).
 Proof.
   apply s2t_inj. rewrite s2t_valued_text. unfold pf_state_text, pf_atom. cbn [fst snd].
   rewrite !s2t_app, s2t_join. simpl. rewrite <- ?app_assoc. simpl. rewrite <- ?app_assoc. reflexivity.
 Qed.
+
+(* a float value (every value the parsers and the effects store) *)
+Lemma pf_state_text_valued num_text f : pf_int f = false ->
+  pf_state_text num_text f = valued_text (pf_atom f) (num_text (pf_val f)).
+Proof.
+  intros Hf. rewrite pf_state_text_valued'. unfold pf_value_text. rewrite Hf. reflexivity.
+Qed.
+
